@@ -430,7 +430,7 @@ C21_SWAPS = [{"file": "internal/storage/common/paginator_column.go", "methods": 
 CHECKS["C21"] = {
     "level": "other",
     "explanation": "Two halves joined by a page specification. Go half (gosym): the real columnPaginator.BuildCursor and OffsetPaginator.BuildCursor, the real cursor encoding (encodeCursor / paginate.EncodeCursor: JSON + base64) and decoding (UnmarshalCursor) are executed symbolically on n entities with symbolic, strictly increasing keys: starting from the initial query the next cursors are followed to the end, from every page the previous cursor is followed, and from the last page the previous cursors are followed all the way back (reverse branch), each page reached backwards being asked for its next page again. The SQL of a page is replaced by its specification (rows on the requested side of the pagination id, effective order, cut at pageSize+1; offset .. offset+pageSize+1). Decided: for a symbolic page size (and offset) the statement asks for exactly pageSize+1 rows (skipping offset rows); the concatenation of the pages is every entity exactly once in the requested order; no page exceeds the page size; hasMore iff a next cursor; first page has no previous cursor; previous returns exactly the page before; walking back returns each earlier page and its next cursor leads forward again. SQL half (pychecks/c21_pages): for every (resource, order, reverse, pagination id set/unset, page size) and (resource, order, offset, page size) the statement captured from the real paginators is evaluated with exact LIMIT/OFFSET semantics on a symbolic table and z3 decides it returns exactly the specified page, and its outermost ORDER BY is the effective order.",
-    "bounds": {"quick": "Go half: n <= 7 entities, page sizes 1-4, both orders, column and offset paginators (19 walks; keys symbolic); SQL half: K <= 4 rows, page sizes 1-2, offsets 0-3, transactions and logs by id, accounts by address, volumes by account", "thorough": "SQL half: K <= 5 rows, page sizes 1-3"},
+    "bounds": {"quick": "Go half: n <= 7 entities, page sizes 1-4, both orders, column and offset paginators (19 walks; keys symbolic); SQL half: K <= 4 rows, page sizes 1-2, offsets 0-3, transactions and logs by id, accounts by address, volumes by account", "thorough": "SQL half: K <= 5 rows for the id-sorted resources, K <= 4 for the address-sorted ones, page sizes 1-3"},
     "outside": "findPaginationFieldPath / findPaginationField (reflection plumbing that reads the `bun` tag: replaced for the harness entity by their evident result through a swap overlay); date-typed pagination columns (not unique keys); volumes rows of one account in several assets tie on the sort column 'account' (PostgreSQL's tie order is not modelled: the SQL half assumes distinct accounts); grouped volumes; filters and PIT combined with pagination (the filter is carried verbatim inside the cursor: covered by the encode/decode round trip; its SQL by C20); listings changing between pages",
     "assumptions": COMMON_ASSUME + SQL_ASSUME[:2] + ["base64 is a bijection (decoding a text produced by EncodeToString gives the encoded bytes back)", DBMODEL_ASSUME[1]],
     "technique": "symbolic execution (gosym, z3) of the real cursor code over a page specification + bounded symbolic evaluation (z3) of the captured paginated SQL against that specification",
@@ -450,6 +450,9 @@ CHECKS["C37"] = {
 CHECKS["C35"]["units"].append(py_unit("c35_writes", "c35-writes", []))
 CHECKS["C35"]["explanation"] += " Write half: the statements every write method of the real store emits are captured per configuration and compared with the default configuration's: apart from the INSERT into moves (emitted iff MOVES_HISTORY=ON) and InsertLog's advisory lock (taken iff HASH_LOGS=SYNC) they are the same text, so transactions, logs, volumes, accounts and metadata are written identically (what the configuration-dependent triggers add is C04 / C17 / C09)."
 CHECKS["C35"]["outside"] = "the 48-way cross product of feature values (one feature flipped at a time, plus minimal); the write half compares statement texts (decided by equality, not by the solver)"
+
+CHECKS["C02"]["units"].append(unit("./internal/storage/ledger", ["storage/bunhook.go", "storage/c02.go"], "^Harness_C02_store_", QT, flags={"labels": "^(C02:|no-panic)", "max-decisions": 3000}, reach=["end"], validate_witnesses=0))
+CHECKS["C02"]["explanation"] += " Go-to-SQL link: the real Store.UpdateVolumes runs with symbolic deltas (Input == Output and zero included) up to its INSERT (bun object opaque); the model handed to the statement is read back and must be exactly the rows it was asked to apply."
 
 CHECKS["C14"] = {
     "level": "other",
@@ -481,7 +484,7 @@ CHECKS["C10"] = {
     "assumptions": ["the migration resolver keeps the last definition of each function", "payload and date renderings are equal on both sides (not encodable: PostgreSQL text functions)", "bun stores an empty schema version as NULL (nullzero tag)"],
     "technique": "string-theory query (z3) over the two framings extracted from the current SQL and Go sources",
     "units": [py_unit("c10_hash", "c10", []),
-              unit("./internal/storage/ledger", ["storage/c10.go"], "^Harness_C10_", QT, flags={"labels": "^(C10:|no-panic)", "max-decisions": 4000}, reach=["end"])],
+              unit("./internal/storage/ledger", ["storage/bunhook.go", "storage/c10.go"], "^Harness_C10_", QT, flags={"labels": "^(C10:|no-panic)", "max-decisions": 4000}, reach=["end"])],
 }
 
 
